@@ -93,6 +93,14 @@ class Values:
         if self.mode == "int":
             v = self.np.integers(1, 5, size=shape).astype(float)
             return v * self.np.choice([-1.0, 1.0], size=shape)
+        if self.mode == "signedzero":
+            # unique positive ids mixed with +0.0 and -0.0 entries (bit patterns matter)
+            v = np.arange(self.counter, self.counter + n, dtype=float).reshape(shape)
+            self.counter += n
+            r = self.np.random(size=shape)
+            v = np.where(r < 0.2, 0.0, v)
+            v = np.where(r < 0.1, -0.0, v)
+            return v
         return self.np.normal(size=shape)
 
     def __call__(self, shape):
